@@ -68,10 +68,14 @@ Print Assumptions C13_accepted_passed_all_checks.
    MAC is the MAC of the reply as the client receives it, and the requesting
    client (same key; local = the request's source, remote = its destination)
    authenticates and accepts it.  Hypotheses: a CMAC tag has 16 bytes; the
-   reversed path has a registered path type (what Path.Reverse returns). *)
+   reversed path has a registered path type (what Path.Reverse returns); the
+   request names IP hosts (address types T4Ip/T16Ip, as every request of the
+   client does: since 702ebdb the client refuses a response whose source or
+   destination is a service or other non-IP address with the host's bytes). *)
 Theorem C13_reply_auth_roundtrip : forall mac reverse fetch_key ntp_handle c q oob k o s n p t,
   (forall k m, zlen (mac k m) = 16) ->
   (forall pt pp, reverse (h_path_type (rx_hdr q), h_path (rx_hdr q)) = Some (pt, pp) -> pt < 4) ->
+  ip_type (h_src_type (rx_hdr q)) = true -> ip_type (h_dst_type (rx_hdr q)) = true ->
   server_auth mac fetch_key c q = AuthOk k o -> rx_l4 q = Udp s (s_local_port c) n p ->
   server_step mac reverse fetch_key ntp_handle c q oob = Send ToLastHop t ->
   let h := rx_hdr q in
@@ -173,6 +177,17 @@ Theorem C13_cli_oracle_holds_on_model : forall mac c k h sp dp pl rs (auth : boo
     (accepted_of (client_run mac c false 0 rs)) = true.
 Proof. exact cli_oracle_on_model. Qed.
 Print Assumptions C13_cli_oracle_holds_on_model.
+
+(* The response the client computes an offset from comes from the queried host
+   and is addressed to the client (ISD-AS, IP address type, same IP address):
+   C13_cli_from_queried_ok holds for the model for every list of delivered
+   datagrams, whatever MACs the harness attaches to them. *)
+Theorem C13_cli_from_queried_holds_on_model : forall mac c rs macs,
+  length macs = length rs ->
+  C13_cli_from_queried_ok (c_local_ia c) (c_local_host c) (c_remote_ia c) (c_remote_host c)
+    (combine (map fst rs) macs) (accepted_of (client_run mac c false 0 rs)) = true.
+Proof. exact cli_from_queried_on_model. Qed.
+Print Assumptions C13_cli_from_queried_holds_on_model.
 
 (* The server clause of the property oracle (C13_srv_ok, the boolean evaluated on
    the implementation's observations) holds for the model on ALL inputs: any
